@@ -43,7 +43,8 @@ def make_gate(P):
     L = P["L"]
 
     def h(o1: int, o2: int, o3: int, o4: int, o5: int, u: int, swap: bool) -> str:
-        ops = [fork_int(o, 0, 7) for o in [o1, o2, o3, o4, o5][:L]]
+        OPS = P.get("ops") or list(range(8))
+        ops = [OPS[fork_int(o, 0, len(OPS) - 1)] for o in [o1, o2, o3, o4, o5][:L]]
         only_shard(sum(o * 8**i for i, o in enumerate(ops[:2])), P)
         us = 3 if fork_int(u, 0, 1) == 0 else 6
         sw = True if swap else False
@@ -192,7 +193,7 @@ def _fns():
             RunEngine.remove_suspender, RunEngine.__call__, RunEngine.request_suspend, RunEngine._start_suspender]
 
 
-register(Harness("c31_gate", "C31", make_gate, {"quick": dict(L=4, shards=64, budget_s=300, per_path_s=30), "thorough": dict(L=5, shards=64, budget_s=3000, per_path_s=30)},
+register(Harness("c31_gate", "C31", make_gate, {"quick": dict(L=4, ops=[0, 2, 4, 6, 1, 5], shards=48, budget_s=300, per_path_s=30), "thorough": dict(L=5, shards=64, budget_s=3000, per_path_s=30)},
                  goals=["gated", "not-gated", "removed"], functions=_fns, mode="schedule",
                  symbolic="history of L operations, each in {install, remove, signal high, signal low} x {suspender 0, suspender 1}, applied while idle; then a plan is started and "
                  "the high signals go low at loop step u in {3,6}; both iteration orders of the engine's suspender set", out_of_bound=OUT + "; suspender classes other than SuspendBoolHigh (their conditions are C30)",
